@@ -287,22 +287,26 @@ impl<const N: usize, T> Drop for Drain<'_, N, T> {
         let buf = unsafe { self.buf.as_mut() };
         let mut remaining = self.buf_size - self.range.end;
 
-        let items = CircularSlicePtr::new(&mut buf.items).add(buf.start);
-        let mut hole = items.add(self.range.start);
-        let mut backfill = items.add(self.range.end);
+        // Nothing to move if there are no items past the hole; this is always the case for
+        // zero-capacity buffers, for which `CircularSlicePtr` cannot be used.
+        if remaining > 0 {
+            let items = CircularSlicePtr::new(&mut buf.items).add(buf.start);
+            let mut hole = items.add(self.range.start);
+            let mut backfill = items.add(self.range.end);
 
-        // This loop should run at most 3 times as explained above
-        while remaining > 0 {
-            let copy_len = hole
-                .available_len()
-                .min(backfill.available_len())
-                .min(remaining);
-            // SAFETY: both pointers are properly aligned, and are valid for read and writes.
-            unsafe { ptr::copy(backfill.as_ptr(), hole.as_mut_ptr(), copy_len) };
+            // This loop should run at most 3 times as explained above
+            while remaining > 0 {
+                let copy_len = hole
+                    .available_len()
+                    .min(backfill.available_len())
+                    .min(remaining);
+                // SAFETY: both pointers are properly aligned, and are valid for read and writes.
+                unsafe { ptr::copy(backfill.as_ptr(), hole.as_mut_ptr(), copy_len) };
 
-            hole = hole.add(copy_len);
-            backfill = backfill.add(copy_len);
-            remaining -= copy_len;
+                hole = hole.add(copy_len);
+                backfill = backfill.add(copy_len);
+                remaining -= copy_len;
+            }
         }
 
         // Now that the buffer memory contains valid items, the size can be restored
